@@ -13,6 +13,9 @@ HARNESSES = [
 # repaired: the behaviour the theorems are proved for.  The others reproduce the recorded defects, one at a
 # time and all together, so that fixing one of them upstream does not turn the others into false alarms.
 VARIANTS = ["repaired"]
+# the model driver reads the implementation's line: choices the property leaves free (which proposals IPCP refuses
+# when nothing usable is assigned) are taken from it and checked for admissibility inside the model
+MODEL_NEEDS_IMPL = True
 RULE = ("ipcp/lcp/v6: ProcessConfReq called directly; every option list of length <= 2 (quick) / 3 (thorough) over a "
         "structured alphabet (implemented + unknown types, data lengths 0,1,2,3,4,5,6,8,9,253, values assigned / zero / "
         "local / near-miss / other) against every configuration class (assigned nil / 4-byte / 16-byte mapped / 0.0.0.0 / "
